@@ -202,3 +202,92 @@ Section Insert.
       apply (IH ist1 ist'); [|exact H]. eapply insert_one_inv; eauto.
   Qed.
 End Insert.
+
+(* ---------------------------------------------------------------- the initial tick map *)
+Lemma tick_edges_lookup T g : forall es, NoDup (map e_id es) ->
+  (forall e, In e es ->
+     alookup (e_id e) (flat_map (fun e => match edge_delay T g e with Some d => [(e_id e, d)] | None => [] end) es)
+     = edge_delay T g e) /\
+  (forall k d, alookup k (flat_map (fun e => match edge_delay T g e with Some d => [(e_id e, d)] | None => [] end) es) = Some d ->
+     In k (map e_id es)).
+Proof.
+  induction es as [|a es IH]; intro ND; simpl; [split; [intros e []|intros k d H; discriminate]|].
+  inversion ND as [|? ? Hn ND']; subst. destruct (IH ND') as [IH1 IH2]. split.
+  - intros e [<-|He].
+    + destruct (edge_delay T g a) as [d|] eqn:E; simpl.
+      * rewrite N.eqb_refl. reflexivity.
+      * destruct (alookup (e_id a) _) as [d|] eqn:A; [|reflexivity]. exfalso. apply Hn. eapply IH2. exact A.
+    + destruct (edge_delay T g a) as [d|] eqn:E; simpl; [|apply IH1; exact He].
+      destruct (N.eqb_spec (e_id e) (e_id a)) as [Q|Q]; [|apply IH1; exact He].
+      exfalso. apply Hn. rewrite <- Q. apply in_map. exact He.
+  - intros k d H. destruct (edge_delay T g a) as [d0|]; simpl in H.
+    + destruct (N.eqb_spec k (e_id a)) as [Q|Q]; [left; auto|right; eapply IH2; exact H].
+    + right. eapply IH2. exact H.
+Qed.
+
+Section W5.
+  Variables (T : optable) (g p : graph).
+  Hypothesis Hok : flat_ok_b T g = true.
+  Hypothesis Hmk : flat_marks_ok_b g = true.
+  Hypothesis Hp : partition_model T g = POk p.
+
+  Theorem W5_all : W5 T p.
+  Proof.
+    destruct (model_core T g p Hok Hp) as (st & f & ist & groups & topo & P & Ei & Es & Cg & Fg & Em & Ep).
+    destruct (ok_parts T g Hok) as (ND & NDe & Cl & _ & _).
+    destruct (insert_all_nodes _ _ _ Ei) as (extra & En & El & Fex & _ & _). simpl in En, El, Fex.
+    destruct (tick_edges_lookup T g (g_edges g) NDe) as [TL1 TL2].
+    (* the invariant holds initially, with the final handoff_edges pending *)
+    assert (I0 : IInv T (mkIs g (tick_edges T g) (max_list (node_ids g) + 1) (max_list (map e_id (g_edges g)) + 1))
+                      (ps_hedges st)).
+    { constructor; simpl.
+      - exact NDe.
+      - intros e He. pose proof (max_list_ge _ _ (in_map e_id _ _ He)). lia.
+      - intros n Hn. pose proof (max_list_ge _ _ (in_map n_id _ _ Hn)) as HM. unfold node_ids. lia.
+      - intros e He. destruct (Cl e He) as [A B]. split; apply In_sort_dedup'; assumption.
+      - intros e He. apply TL1. exact He.
+      - intros k d Hk. pose proof (max_list_ge _ _ (TL2 k d Hk)). lia.
+      - intros e He Ht. destruct (hoff_adj g e) eqn:Ha.
+        + left. unfold hoff_adj in Ha. apply orb_true_iff in Ha. destruct Ha as [Ha|Ha]; [exact Ha|].
+          rewrite (tick_dst_op T g e Ht) in Ha. discriminate.
+        + right. exact (pi_tick _ _ _ _ P e He Ha Ht). }
+    pose proof (insert_all_inv T _ _ _ I0 Ei) as I1.
+    set (g1 := is_g ist) in *.
+    set (F := fun n => mkNode (n_id n) (n_kind n) (n_loop n) (n_refs n)
+                              (node_sg (register_sgs g1 groups) (n_id n)) (mark_node g1 (Full.is_tick ist) n)) in *.
+    assert (Pn : forall x, node_of p x = option_map F (node_of g1 x)).
+    { intro x. subst p. unfold node_of. simpl. apply find_node_map. intro n. reflexivity. }
+    assert (Pk : forall x, kind_of p x = kind_of g1 x).
+    { intro x. unfold kind_of. rewrite Pn. destruct (node_of g1 x); reflexivity. }
+    assert (Pe : g_edges p = g_edges g1) by (subst p; reflexivity).
+    assert (Pl : forall x, node_loop p x = node_loop g1 x).
+    { intro x. unfold node_loop. rewrite Pn. destruct (node_of g1 x); reflexivity. }
+    assert (Pp : forall l, loop_parent p l = loop_parent g1 l) by (intro l; subst p; reflexivity).
+    assert (Pr : forall c d, remap p c d = remap g1 c d).
+    { intros c d. unfold remap. rewrite Pl. destruct (node_loop g1 c); [rewrite Pp|]; reflexivity. }
+    split.
+    - intros e d He Hd. rewrite Pe in He.
+      rewrite (is_hoff_kind g1 p _ (Pk _)).
+      assert (Ht : Model.is_tick T g1 e = true).
+      { unfold Model.is_tick. rewrite (edge_delay_kind T p g1 e); [rewrite Hd; reflexivity|]. symmetry. apply Pk. }
+      destruct (ii_src _ _ _ I1 e He Ht) as [A|[]]. exact A.
+    - intros n' Hn'.
+      assert (Hn : exists n, In n (g_nodes g1) /\ n' = F n).
+      { subst p. simpl in Hn'. apply in_map_iff in Hn'. destruct Hn' as (n & <- & Hn). exists n. auto. }
+      destruct Hn as (n & Hn & ->). cbn [F n_kind n_delay n_id].
+      assert (Dn : n_delay n = None).
+      { rewrite En in Hn. apply in_app_or in Hn. destruct Hn as [Hn|Hn].
+        - unfold flat_marks_ok_b in Hmk. rewrite forallb_forall in Hmk. specialize (Hmk n Hn).
+          destruct (n_delay n); [discriminate|reflexivity].
+        - rewrite Forall_forall in Fex. destruct (Fex n Hn) as [(_ & _ & _ & _ & D) _]. exact D. }
+      unfold mark_node. destruct (n_kind n) eqn:Kd; try exact Dn.
+      unfold expected_mark. rewrite Pe.
+      destruct (filter (fun e => N.eqb (e_src e) (n_id n)) (g_edges g1)) as [|e r] eqn:Fl; [exact Dn|].
+      assert (He : In e (g_edges g1)).
+      { assert (In e (filter (fun e => N.eqb (e_src e) (n_id n)) (g_edges g1))) by (rewrite Fl; left; reflexivity).
+        apply filter_In in H. tauto. }
+      rewrite (ii_tick _ _ _ I1 e He). fold g1.
+      rewrite (edge_delay_kind T g1 p e (Pk _)).
+      destruct (edge_delay T g1 e); [rewrite Pr; reflexivity|exact Dn].
+  Qed.
+End W5.
